@@ -1072,7 +1072,7 @@ class Layout:
                 if st == "use" and mod_stem(h) is None:
                     st = "use_as"
                 self.style[(q, h)] = st
-                self.alias[(q, h)] = "al_%d" % r.randint(10, 99)
+                self.alias[(q, h)] = "al_%d" % (len(self.alias) + 10)    # unique within the layout
         self.r = r
 
     def name_of(self, x):
